@@ -101,7 +101,7 @@ Lemma MC_step cfg st o : MC (quotas st) -> mc_opb st o = true -> MC (quotas (fst
 Proof.
   intros M Hb.
   destruct o as [id parent lend decl mx mindecl mn w|id mx mindecl mn w|id qn np req keys|id|id|id|id|id|t
-                 |id qn np req keys|]; unfold step; cbv zeta.
+                 |id qn np req keys|id|]; unfold step, apply_attempt; cbv zeta.
   - destruct (id <=? 0); cbn [orb fst]; [exact M|].
     destruct (find_quota id (quotas st)); cbn [orb fst]; [exact M|].
     match goal with |- context [negb ?b] => destruct b end; cbn [negb fst quotas]; [|exact M].
